@@ -13,6 +13,8 @@
   proposal at all; the companion lemmas say so.
 -/
 import SygmaModel.Proofs.C01Src
+import SygmaModel.Proofs.C01Btc
+import SygmaModel.Proofs.C01Abi
 namespace Sygma.C01
 
 section Helpers
@@ -119,6 +121,187 @@ theorem generic_formats_agree (fee : Nat) (fs ca dep ex : Bytes) (h : GenericWF 
   simp [Canon.generic, Src.generic, leftPad2 _ h.2.1]
 
 example : GenericWF 500000 [1, 2, 3, 4] (List.replicate 20 5) (List.replicate 20 6) [7] := by decide
+
+/-! ### fungible: Bitcoin source (the destination domain is the one named in the OP_RETURN text; ×10^10) -/
+
+theorem btc_to_evm (id : Ident) (sat : Nat) (addr : Bytes) (dst : Nat) (ha : addr.length = 20) (hd : dst < 256)
+    (hfit : sat * 10 ^ 10 < 2 ^ 256) :
+    relay ⟨.btc, .evm, id, Src.btcText addr dst, [], sat⟩ =
+      .ok ⟨⟨id.src, dst, id.nonce, id.rid⟩, .evm (Canon.evmFungible (sat * 10 ^ 10) addr none), none⟩ := by
+  simp only [relay, source, dest, btc_src id.src id.nonce id.rid sat addr dst ha hd]
+  simp [evmHandle, fungibleData, Canon.evmFungible, Src.optTail, pad32]
+
+theorem btc_to_sub (id : Ident) (sat : Nat) (addr : Bytes) (dst : Nat) (ha : addr.length = 20) (hd : dst < 256)
+    (hfit : sat * 10 ^ 10 < 2 ^ 256) :
+    relay ⟨.btc, .sub, id, Src.btcText addr dst, [], sat⟩ =
+      .ok ⟨⟨id.src, dst, id.nonce, id.rid⟩, .evm (Canon.subFungible (sat * 10 ^ 10) addr), none⟩ := by
+  simp only [relay, source, dest, btc_src id.src id.nonce id.rid sat addr dst ha hd]
+  simp [subHandle, fungibleData, Canon.subFungible, pad32]
+
+/-- Bitcoin → Bitcoin: ×10^10 then ÷10^10 returns the satoshi amount -/
+theorem btc_to_btc (id : Ident) (sat : Nat) (addr : Bytes) (dst : Nat) (ha : addr.length = 20) (hd : dst < 256)
+    (hfit : sat < 2 ^ 64) :
+    relay ⟨.btc, .btc, id, Src.btcText addr dst, [], sat⟩ =
+      .ok ⟨⟨id.src, dst, id.nonce, id.rid⟩, .btc sat addr, none⟩ := by
+  simp only [relay, source, dest, btc_src id.src id.nonce id.rid sat addr dst ha hd]
+  simp [btcHandle, beToNat_natToBE, Nat.mod_eq_of_lt hfit]
+
+example : (List.replicate 20 (171 : UInt8)).length = 20 ∧ (2 : Nat) < 256 ∧ 2100000000000000 * 10 ^ 10 < 2 ^ 256 := by decide
+
+/-! ### ERC1155 (EVM → EVM): `abiEncode1155` is the canonical ABI encoding of (ids, amounts, recipient, data) and serves as
+    both the reference source and the reference destination format -/
+
+theorem erc1155_evm_to_evm (id : Ident) (v : Semi) (resp : Bytes) (n : Nat) (h : v.WF) :
+    relay ⟨.erc1155, .evm, id, abiEncode1155 v, resp, n⟩ = .ok ⟨id, .evm (abiEncode1155 v), none⟩ := by
+  simp only [relay, source, dest, erc1155Deposit, abiDecode_encode v h]
+  simp [evmHandle, h.2.2.1]
+
+/-- the decoder inverts the encoder: no id, amount, recipient byte or data byte is altered by the round trip -/
+theorem erc1155_decode_encode (v : Semi) (h : v.WF) : abiDecode1155 (abiEncode1155 v) = some v :=
+  abiDecode_encode v h
+
+example : (⟨[1, 2 ^ 256 - 1], [5, 0], List.replicate 20 3, [9, 9, 9]⟩ : Semi).WF := by decide
+
+/-! ### the predicate the driver evaluates on the implementation's output holds of the model, for every request -/
+
+theorem expected_sound (i : Input) (e : Out) (h : expected i = some e) : relay i = e := by
+  obtain ⟨sk, dk, id, cd, resp, num⟩ := i
+  unfold expected at h
+  cases sk with
+  | erc20 =>
+    simp only [] at h
+    generalize hd : parseFungible cd = d at h
+    by_cases hc : Src.fungible d = cd ∧ d.WF ∧ RespWF resp
+    · rw [if_pos hc] at h
+      obtain ⟨hcd, hwf, hr⟩ := hc
+      subst hcd
+      cases dk with
+      | evm => simp only [Option.some.injEq] at h; rw [← h]; exact erc20_evm_to_evm id d resp num hwf hr
+      | sub =>
+        simp only [] at h
+        by_cases ho : d.opt = none
+        · rw [if_pos ho] at h; simp only [Option.some.injEq] at h; rw [← h]
+          exact erc20_evm_to_sub id d resp num hwf hr ho
+        · rw [if_neg ho] at h; cases h
+      | btc =>
+        simp only [] at h
+        by_cases ho : d.opt = none ∧ effAmount d.amount resp / 10 ^ 10 < 2 ^ 64
+        · rw [if_pos ho] at h; simp only [Option.some.injEq] at h; rw [← h]
+          exact erc20_evm_to_btc id d resp num hwf hr ho.1 ho.2
+        · rw [if_neg ho] at h; cases h
+    · rw [if_neg hc] at h; cases h
+  | sub =>
+    simp only [] at h
+    generalize hd : parseFungible cd = d at h
+    by_cases hc : Src.fungible d = cd ∧ d.WF ∧ d.opt = none ∧ num = 0
+    · rw [if_pos hc] at h
+      obtain ⟨hcd, hwf, ho, hn⟩ := hc
+      subst hcd
+      subst hn
+      cases dk with
+      | evm =>
+        simp only [Option.some.injEq] at h; rw [← h]
+        have := sub_to_evm id d hwf
+        simp only [relay, source, dest] at this ⊢
+        exact this
+      | sub =>
+        simp only [Option.some.injEq] at h; rw [← h]
+        have := sub_to_sub id d hwf
+        simp only [relay, source, dest] at this ⊢
+        exact this
+      | btc =>
+        simp only [] at h
+        by_cases hf : d.amount / 10 ^ 10 < 2 ^ 64
+        · rw [if_pos hf] at h; simp only [Option.some.injEq] at h; rw [← h]
+          have := sub_to_btc id d hwf hf
+          simp only [relay, source, dest] at this ⊢
+          exact this
+        · rw [if_neg hf] at h; cases h
+    · rw [if_neg hc] at h; cases h
+  | erc721 =>
+    simp only [] at h
+    generalize hr : (List.drop 64 cd).take (beToNat ((List.drop 32 cd).take 32)) = r at h
+    generalize hm : (List.drop (96 + beToNat ((List.drop 32 cd).take 32)) cd).take
+      (beToNat ((List.drop (64 + beToNat ((List.drop 32 cd).take 32)) cd).take 32)) = md at h
+    generalize ht : beToNat (List.take 32 cd) = t at h
+    by_cases hc : Src.nft t r md = cd ∧ NftWF t r md ∧ dk = .evm
+    · rw [if_pos hc] at h
+      obtain ⟨hcd, hwf, hk⟩ := hc
+      subst hk
+      simp only [Option.some.injEq] at h; rw [← h, ← hcd]
+      exact erc721_evm_to_evm id t r md resp num hwf
+    · rw [if_neg hc] at h; cases h
+  | generic =>
+    simp only [] at h
+    split at h
+    · next hc =>
+      obtain ⟨hcd, hwf, hk⟩ := hc
+      subst hk
+      simp only [Option.some.injEq] at h; rw [← h]
+      have := generic_evm_to_evm id _ _ _ _ _ resp num hwf
+      rw [hcd] at this
+      exact this
+    · cases h
+  | erc1155 =>
+    simp only [] at h
+    cases hdec : abiDecode1155 cd with
+    | none => rw [hdec] at h; cases h
+    | some v =>
+      rw [hdec] at h
+      simp only [] at h
+      by_cases hc : abiEncode1155 v = cd ∧ v.WF ∧ dk = .evm
+      · rw [if_pos hc] at h
+        obtain ⟨hcd, hwf, hk⟩ := hc
+        subst hk
+        simp only [Option.some.injEq] at h; rw [← h, ← hcd]
+        exact erc1155_evm_to_evm id v resp num hwf
+      · rw [if_neg hc] at h; cases h
+  | btc =>
+    simp only [] at h
+    split at h
+    · next p0 p1 hsp =>
+      generalize fromHexGo p0 = addr at h
+      generalize decValue p1 = dst at h
+      by_cases hc : Src.btcText addr dst = cd ∧ addr.length = 20 ∧ dst < 256
+      · rw [if_pos hc] at h
+        obtain ⟨hcd, ha, hdl⟩ := hc
+        subst hcd
+        cases dk with
+        | evm =>
+          simp only [] at h
+          by_cases hf : num * 10 ^ 10 < 2 ^ 256
+          · rw [if_pos hf] at h; simp only [Option.some.injEq] at h; rw [← h]
+            have := btc_to_evm id num addr dst ha hdl hf
+            simp only [relay, source, dest] at this ⊢
+            exact this
+          · rw [if_neg hf] at h; cases h
+        | sub =>
+          simp only [] at h
+          by_cases hf : num * 10 ^ 10 < 2 ^ 256
+          · rw [if_pos hf] at h; simp only [Option.some.injEq] at h; rw [← h]
+            have := btc_to_sub id num addr dst ha hdl hf
+            simp only [relay, source, dest] at this ⊢
+            exact this
+          · rw [if_neg hf] at h; cases h
+        | btc =>
+          simp only [] at h
+          by_cases hf : num < 2 ^ 64
+          · rw [if_pos hf] at h; simp only [Option.some.injEq] at h; rw [← h]
+            have := btc_to_btc id num addr dst ha hdl hf
+            simp only [relay, source, dest] at this ⊢
+            exact this
+          · rw [if_neg hf] at h; cases h
+      · rw [if_neg hc] at h; cases h
+    · cases h
+
+/-- the predicate the driver evaluates on the implementation's output holds of the model, for every request:
+    whenever the request is a well-formed deposit for its (source, destination) pair, `relay` yields exactly the
+    expected proposal -/
+theorem model_satisfies (i : Input) : P01 i (relay i) := by
+  unfold P01
+  cases h : expected i with
+  | none => trivial
+  | some e => exact expected_sound i e h
 
 end Property
 
